@@ -30,6 +30,8 @@ import (
 	"github.com/btcsuite/btcd/chainhash/v2"
 	"github.com/btcsuite/btcd/wire/v2"
 	"github.com/btcsuite/btcd/btcutil/v2"
+	"github.com/btcsuite/btcd/btcutil/v2/gcs/builder"
+	"github.com/btcsuite/btclog"
 	"github.com/btcsuite/btcd/rpcclient"
 	"github.com/lightninglabs/neutrino/banman"
 	"github.com/lightninglabs/neutrino/blockntfns"
@@ -67,53 +69,72 @@ type nodeFix struct {
 	params *chaincfg.Params
 	now    time.Time
 	trunk  []*verifchain.Node // trunk[i] has height i
-	fork   []*verifchain.Node // fork[i] has height i+2, parent of fork[0] is trunk[1]
-	bad    []*verifchain.Node // invalid children: bad[i] is an invalid child of trunk[i]
-	data   map[chainhash.Hash]*verifchain.BlockData
-	byHash map[chainhash.Hash]*verifchain.Node
+	// fork[i] has height forkFrom+1+i; the parent of fork[0] is trunk[forkFrom]
+	fork     []*verifchain.Node
+	forkFrom int32
+	start    int32                    // the honest chain at the start: trunk[0..start]
+	bad      map[chainhash.Hash]*verifchain.Node // an invalid child for trunk nodes from start on
+	data     map[chainhash.Hash]*verifchain.BlockData
+	byHash   map[chainhash.Hash]*verifchain.Node
+	fh       map[chainhash.Hash]chainhash.Hash // true filter headers (filled lazily)
+	// filter hash of the genesis block's (empty) basic filter
+	genFilterHash chainhash.Hash
 }
 
-const (
-	nodeTrunkStart = 3 // the honest chain at the start: trunk[0..3]
-	nodeTrunkLen   = 5
-	nodeForkLen    = 6 // B2..B7 (B7 is reserved for the last growth)
-)
+const nodeForkLen = 6 // the last fork block is reserved for the final growth
 
-var nodeFixture *nodeFix
+var nodeFixtures = map[string]*nodeFix{}
 
-func getNodeFixture() *nodeFix {
-	if nodeFixture != nil {
-		return nodeFixture
+// getNodeFixture builds the short block tree (trunk T1..T5, start T3, fork
+// B2..B7 from T1) or the long one (trunk of 2005 blocks, start 2002, fork of 6
+// from 2000), which reaches filter checkpoints (every 1000 blocks).
+func getNodeFixture(long bool) *nodeFix {
+	key := "short"
+	trunkLen, start, forkFrom := int32(5), int32(3), int32(1)
+	if long {
+		key = "long"
+		trunkLen, start, forkFrom = 2005, 2002, 2000
+	}
+	if f := nodeFixtures[key]; f != nil {
+		return f
 	}
 	p := verifchain.Params(verifchain.Opt{})
-	f := &nodeFix{params: p, data: map[chainhash.Hash]*verifchain.BlockData{}, byHash: map[chainhash.Hash]*verifchain.Node{}}
+	f := &nodeFix{params: p, data: map[chainhash.Hash]*verifchain.BlockData{}, byHash: map[chainhash.Hash]*verifchain.Node{},
+		bad: map[chainhash.Hash]*verifchain.Node{}, fh: map[chainhash.Hash]chainhash.Hash{}, start: start, forkFrom: forkFrom}
 	g := verifchain.Genesis(p)
 	f.byHash[g.Hash] = g
 	f.trunk = []*verifchain.Node{g}
 	cur := g
-	for i := 1; i <= nodeTrunkLen; i++ {
+	for i := int32(1); i <= trunkLen; i++ {
 		n, d := verifchain.MineBlock(p, cur, 10*time.Minute, 1, fmt.Sprintf("T%d", i))
 		f.trunk = append(f.trunk, n)
 		f.data[n.Hash], f.byHash[n.Hash] = d, n
 		cur = n
 	}
-	cur = f.trunk[1]
+	cur = f.trunk[forkFrom]
 	for i := 0; i < nodeForkLen; i++ {
 		n, d := verifchain.MineBlock(p, cur, 9*time.Minute, 2, fmt.Sprintf("B%d", cur.Height+1))
 		f.fork = append(f.fork, n)
 		f.data[n.Hash], f.byHash[n.Hash] = d, n
 		cur = n
 	}
-	for i := 0; i <= nodeTrunkLen; i++ {
+	for i := start; i <= trunkLen; i++ {
 		parent := f.trunk[i]
 		ts := parent.Hdr.Timestamp.Add(10 * time.Minute)
 		x := verifchain.MineAt(p, parent, ts, verifchain.RequiredBits(p, parent, ts), 7, fmt.Sprintf("X%d", i+1), false)
 		x.Invalid = "pow"
-		f.bad = append(f.bad, x)
+		f.bad[parent.Hash] = x
 		f.byHash[x.Hash] = x
 	}
-	f.now = f.trunk[nodeTrunkLen].Hdr.Timestamp.Add(time.Hour)
-	nodeFixture = f
+	gf, err := builder.BuildBasicFilter(p.GenesisBlock, nil)
+	if err != nil {
+		panic(err)
+	}
+	if f.genFilterHash, err = builder.GetFilterHash(gf); err != nil {
+		panic(err)
+	}
+	f.now = f.trunk[trunkLen].Hdr.Timestamp.Add(time.Hour)
+	nodeFixtures[key] = f
 	return f
 }
 
@@ -171,6 +192,7 @@ type nodePeer struct {
 	servedBadBlock bool
 	// C15: how it reacts to a transaction announcement before / after the
 	// first block event, and the announcements it has received
+	fh       map[chainhash.Hash]chainhash.Hash // a liar's own filter header chain
 	txReply  [2]string
 	txActual [2]string // what it has actually sent so far
 	txInvs   int
@@ -197,8 +219,12 @@ type nodeH struct {
 	honestCF map[chainhash.Hash]bool
 	// the first false filter header seen in the store, and whether an
 	// honest remote had answered the request it came from by then
-	poisoned     string
-	poisonedNote string
+	poisoned      string
+	poisonedNote  string
+	poisonChecked uint32
+	// request -> remotes that answered it in turn (name, and name:lied
+	// when the answer contained the liar's false value)
+	answered map[string]map[string]bool
 	calls        []*nodeCall
 	// announcements of the current honest tip that the honest remote
 	// delivered while the client believed its headers were current
@@ -212,11 +238,48 @@ type nodeH struct {
 	stalledSub   *blockntfns.Subscription
 }
 
-func (h *nodeH) truthFH(n *verifchain.Node) chainhash.Hash {
-	if n.Height == 0 {
-		return h.genFH
+// chainFH computes the filter header of n along its own branch, taking the
+// filter hash of every block from pick, with memo as cache.
+func (h *nodeH) chainFH(n *verifchain.Node, memo map[chainhash.Hash]chainhash.Hash, pick func(*verifchain.Node) chainhash.Hash) chainhash.Hash {
+	var todo []*verifchain.Node
+	cur := n
+	for cur.Height > 0 {
+		if _, ok := memo[cur.Hash]; ok {
+			break
+		}
+		todo = append(todo, cur)
+		cur = cur.Parent
 	}
-	return verifchain.NextFilterHeader(h.f.data[n.Hash].FilterHash, h.truthFH(n.Parent))
+	prev := h.genFH
+	if cur.Height > 0 {
+		prev = memo[cur.Hash]
+	}
+	for i := len(todo) - 1; i >= 0; i-- {
+		prev = verifchain.NextFilterHeader(pick(todo[i]), prev)
+		memo[todo[i].Hash] = prev
+	}
+	return prev
+}
+
+func (h *nodeH) truthFH(n *verifchain.Node) chainhash.Hash {
+	return h.chainFH(n, h.f.fh, func(x *verifchain.Node) chainhash.Hash { return h.f.data[x.Hash].FilterHash })
+}
+
+// claimedFH is the filter header remote p claims for n: the true one, or for
+// a liar the chain that results from its false filter hash at lieAt.
+func (h *nodeH) claimedFH(p *nodePeer, n *verifchain.Node) chainhash.Hash {
+	if p.behaviour != "false-cfheaders" || n.Height < p.lieAt {
+		return h.truthFH(n)
+	}
+	if p.fh == nil {
+		p.fh = map[chainhash.Hash]chainhash.Hash{}
+	}
+	return h.chainFH(n, p.fh, func(x *verifchain.Node) chainhash.Hash {
+		if x.Height == p.lieAt {
+			return h.f.data[x.Hash].BadHash
+		}
+		return h.f.data[x.Hash].FilterHash
+	})
 }
 
 func (p *nodePeer) services() wire.ServiceFlag {
@@ -234,14 +297,12 @@ func (p *nodePeer) services() wire.ServiceFlag {
 func (h *nodeH) view(p *nodePeer) []*verifchain.Node {
 	switch p.behaviour {
 	case "lighter-fork":
-		// G T1 B2: always lighter than the honest chain (>= 3 blocks)
-		return []*verifchain.Node{h.f.trunk[0], h.f.trunk[1], h.f.fork[0]}
+		// G .. T[forkFrom] B: always lighter than the honest chain
+		return append(append([]*verifchain.Node{}, h.f.trunk[:h.f.forkFrom+1]...), h.f.fork[0])
 	case "invalid-header":
 		tip := h.honest[len(h.honest)-1]
-		for _, x := range h.f.bad {
-			if x.Parent == tip {
-				return append(append([]*verifchain.Node{}, h.honest...), x)
-			}
+		if x, ok := h.f.bad[tip.Hash]; ok {
+			return append(append([]*verifchain.Node{}, h.honest...), x)
 		}
 	}
 	return h.honest
@@ -348,7 +409,7 @@ func (h *nodeH) replies(p *nodePeer, q wire.Message) (out []wire.Message, drop b
 	case "garbage":
 		// a syntactically valid message nobody asked for
 		g := wire.NewMsgCFHeaders()
-		g.StopHash = f.bad[0].Hash
+		g.StopHash = f.bad[f.trunk[f.start].Hash].Hash
 		return []wire.Message{g}, false
 	}
 	switch m := q.(type) {
@@ -368,14 +429,30 @@ func (h *nodeH) replies(p *nodePeer, q wire.Message) (out []wire.Message, drop b
 		for _, n := range view[start+1:] {
 			hd := n.Hdr
 			resp.Headers = append(resp.Headers, &hd)
-			if n.Hash == m.HashStop {
+			if n.Hash == m.HashStop || len(resp.Headers) == wire.MaxBlockHeadersPerMsg {
 				break
 			}
 		}
 		return []wire.Message{resp}, false
 
 	case *wire.MsgGetCFCheckpt:
-		resp := wire.NewMsgCFCheckpt(m.FilterType, &m.StopHash, 0)
+		stop, ok := f.byHash[m.StopHash]
+		if !ok || stop.Invalid != "" {
+			return nil, false
+		}
+		var cps []*chainhash.Hash
+		for n := stop; n != nil && n.Height > 0; n = n.Parent {
+			if n.Height%wire.CFCheckptInterval == 0 {
+				c := h.claimedFH(p, n)
+				cps = append([]*chainhash.Hash{&c}, cps...)
+			}
+		}
+		resp := wire.NewMsgCFCheckpt(m.FilterType, &m.StopHash, len(cps))
+		for _, c := range cps {
+			if err := resp.AddCFHeader(c); err != nil {
+				panic(verifeng.InfraError{Msg: err.Error()})
+			}
+		}
 		return []wire.Message{resp}, false
 
 	case *wire.MsgGetCFHeaders:
@@ -383,7 +460,7 @@ func (h *nodeH) replies(p *nodePeer, q wire.Message) (out []wire.Message, drop b
 			return nil, true
 		}
 		stop, ok := f.byHash[m.StopHash]
-		if !ok || stop.Invalid != "" || uint32(stop.Height) < m.StartHeight || m.StartHeight == 0 {
+		if !ok || stop.Invalid != "" || uint32(stop.Height) < m.StartHeight {
 			return nil, false
 		}
 		var path []*verifchain.Node
@@ -393,11 +470,18 @@ func (h *nodeH) replies(p *nodePeer, q wire.Message) (out []wire.Message, drop b
 		resp := wire.NewMsgCFHeaders()
 		resp.FilterType = m.FilterType
 		resp.StopHash = m.StopHash
-		resp.PrevFilterHeader = h.truthFH(path[0].Parent)
+		if path[0].Parent != nil {
+			resp.PrevFilterHeader = h.claimedFH(p, path[0].Parent)
+		}
 		if p.behaviour == "false-prev-header" {
 			resp.PrevFilterHeader[3] ^= 0x40
 		}
 		for _, n := range path {
+			if n.Height == 0 {
+				c := f.genFilterHash
+				resp.AddCFHash(&c)
+				continue
+			}
 			fh := f.data[n.Hash].FilterHash
 			if p.behaviour == "false-cfheaders" && n.Height == p.lieAt {
 				fh = f.data[n.Hash].BadHash
@@ -586,6 +670,22 @@ func (h *nodeH) handle(cn *nodeConn) {
 		return
 	}
 	msgs, drop := h.replies(cn.p, it.req)
+	if len(msgs) > 0 && time.Now().Equal(it.at) {
+		switch it.req.(type) {
+		case *wire.MsgGetCFHeaders, *wire.MsgGetCFCheckpt:
+			if h.answered == nil {
+				h.answered = map[string]map[string]bool{}
+			}
+			key := describe(h.f, it.req)
+			if h.answered[key] == nil {
+				h.answered[key] = map[string]bool{}
+			}
+			h.answered[key][cn.p.name] = true
+			if cn.p.behaviour == "false-cfheaders" && h.liesIn(cn.p, it.req) {
+				h.answered[key][cn.p.name+":lied"] = true
+			}
+		}
+	}
 	if q, ok := it.req.(*wire.MsgGetCFHeaders); ok && cn.p.behaviour == "honest" && len(msgs) > 0 {
 		if h.honestCF == nil {
 			h.honestCF = map[chainhash.Hash]bool{}
@@ -640,7 +740,15 @@ func (h *nodeH) checkPoison() {
 	if err != nil {
 		return
 	}
-	for ht := uint32(1); ht <= fht; ht++ {
+	// heights below the fork point never change once checked
+	from := uint32(1)
+	if h.poisonChecked > 0 {
+		from = h.poisonChecked + 1
+		if ff := uint32(h.f.forkFrom); from > ff+1 {
+			from = ff + 1
+		}
+	}
+	for ht := from; ht <= fht; ht++ {
 		hd, err := h.cs.BlockHeaders.FetchHeaderByHeight(ht)
 		if err != nil {
 			return
@@ -652,6 +760,9 @@ func (h *nodeH) checkPoison() {
 		fh, err := h.cs.RegFilterHeaders.FetchHeaderByHeight(ht)
 		if err != nil {
 			return
+		}
+		if ht <= uint32(h.f.forkFrom) && *fh == h.truthFH(n) {
+			h.poisonChecked = ht
 		}
 		if *fh != h.truthFH(n) {
 			if h.honestCF[n.Hash] {
@@ -803,14 +914,20 @@ type nodeMode struct {
 	stops      bool // Stop is offered at every quiescent point
 	calls      bool // the script contains API calls
 	noEarly    bool // script events only when the node is idle
+	long       bool // the 2005-block tree (filter checkpoints at 1000 and 2000)
+	converge   bool // convergence on the honest chain is demanded
 }
 
 var nodeModes = map[string]nodeMode{
 	"C04": {name: "C04", behaviours: []string{"honest", "silent", "invalid-header", "lighter-fork", "false-cfheaders",
-		"false-prev-header", "garbage", "drops-on-cf", "bad-block"}},
+		"false-prev-header", "garbage", "drops-on-cf", "bad-block"}, converge: true},
 	"C13": {name: "C13", behaviours: []string{"no-cf-service", "no-witness", "bad-block", "false-cfheaders", "false-prev-header"}, calls: true},
 	"C17": {name: "C17", behaviours: []string{"honest", "silent", "false-cfheaders", "drops-on-cf"}, stops: true, calls: true},
 	"C15": {name: "C15", behaviours: []string{"honest"}, noEarly: true},
+	// C03 on a chain long enough for filter checkpoints: the liar's false
+	// filter hash makes its checkpoints false from that height on
+	"C04L": {name: "C04", converge: true, long: true, behaviours: []string{"false-cfheaders", "false-prev-header", "silent", "drops-on-cf", "honest", "invalid-header", "garbage"}},
+	"C03L": {name: "C03", behaviours: []string{"false-cfheaders", "false-prev-header", "silent", "drops-on-cf", "honest"}, long: true},
 }
 
 type nodeEv struct {
@@ -830,8 +947,14 @@ func nodeRun(c *verifeng.Chooser, f *nodeFix, env *verifhfs.Env, mode nodeMode, 
 	for i := 0; i < nadv; i++ {
 		p := &nodePeer{name: string(rune('P' + i))}
 		p.behaviour = mode.behaviours[c.ChooseFree(len(mode.behaviours), "behaviour")]
-		if p.behaviour == "false-cfheaders" {
+		if p.behaviour == "false-cfheaders" && !mode.long {
 			p.lieAt = int32(1 + c.ChooseFree(2, "lie-at")*2) // height 1 or 3
+		}
+		if p.behaviour == "false-cfheaders" && mode.long {
+			// inside the first checkpoint interval, exactly on a
+			// checkpoint, inside the second interval, above the last
+			// checkpoint
+			p.lieAt = []int32{500, 1000, 1500, 2001}[c.ChooseFree(4, "lie-at")]
 		}
 		advs = append(advs, p)
 	}
@@ -857,9 +980,15 @@ func nodeRun(c *verifeng.Chooser, f *nodeFix, env *verifhfs.Env, mode nodeMode, 
 		}
 	}
 	c.Note("peers in ConnectPeers order: %s", strings.Join(names, " "))
-	h.honest = append(h.honest, f.trunk[:nodeTrunkStart+1]...)
+	h.honest = append(h.honest, f.trunk[:f.start+1]...)
 
 	DisableDNSSeed = true
+	if os.Getenv("VFX_LOG") != "" {
+		// debugging aid for replays: the client's own log
+		lg := btclog.NewBackend(os.Stdout).Logger("NTRN")
+		lg.SetLevel(btclog.LevelDebug)
+		log = lg
+	}
 	cs, err := NewChainService(Config{
 		DataDir:      env.Dir,
 		Database:     env.DB,
@@ -895,7 +1024,7 @@ func nodeRun(c *verifeng.Chooser, f *nodeFix, env *verifhfs.Env, mode nodeMode, 
 		if last.Label[0] == 'T' {
 			nb = f.trunk[last.Height+1]
 		} else {
-			nb = f.fork[last.Height-1]
+			nb = f.fork[last.Height-f.forkFrom]
 		}
 		h.honest = append(h.honest, nb)
 		h.announceTip()
@@ -904,7 +1033,7 @@ func nodeRun(c *verifeng.Chooser, f *nodeFix, env *verifhfs.Env, mode nodeMode, 
 		// onto the fork from T1 that is exactly one block longer than the
 		// chain it replaces: the smallest margin by which a branch wins
 		tip := h.honestTip().Height
-		h.honest = append(append([]*verifchain.Node{}, f.trunk[:2]...), f.fork[:tip]...)
+		h.honest = append(append([]*verifchain.Node{}, f.trunk[:f.forkFrom+1]...), f.fork[:tip-f.forkFrom+1]...)
 		h.announceTip()
 	}
 	var script []nodeEv
@@ -916,7 +1045,7 @@ func nodeRun(c *verifeng.Chooser, f *nodeFix, env *verifhfs.Env, mode nodeMode, 
 	} else {
 		script = append(script,
 			nodeEv{"the honest chain grows by one block", grow},
-			nodeEv{"the honest side reorganises onto the fork from T1", reorg},
+			nodeEv{"the honest side reorganises onto the fork", reorg},
 			nodeEv{"the honest chain grows by one block", grow})
 	}
 	next := 0
@@ -936,6 +1065,18 @@ func nodeRun(c *verifeng.Chooser, f *nodeFix, env *verifhfs.Env, mode nodeMode, 
 			return
 		}
 		h.checkPoison()
+		if h.oracle == "C03" && h.poisoned == "despite-honest-response" {
+			c.Fail("C03", "C03:false-filter-header-committed-despite-honest-response", "%s although an honest remote had served that block's filter header", h.poisonedNote)
+			return
+		}
+		if h.oracle == "C03" {
+			_, bt, err1 := h.cs.BlockHeaders.ChainTip()
+			_, ft, err2 := h.cs.RegFilterHeaders.ChainTip()
+			if err1 != nil || err2 != nil || ft > bt {
+				c.Fail("C03", "C03:filter-headers-ahead-of-block-headers", "filter header tip %d, block header tip %d (%v, %v)", ft, bt, err1, err2)
+				return
+			}
+		}
 		if h.checkCalls(false) {
 			return
 		}
@@ -964,11 +1105,11 @@ func nodeRun(c *verifeng.Chooser, f *nodeFix, env *verifhfs.Env, mode nodeMode, 
 				menu = append(menu, nodeAct{name: "end"})
 			case ok:
 				menu = append(menu, nodeAct{name: script[next].name, run: fire(script[next])})
-			case next < len(script) && idle >= stageWait && (h.announcedWhileCurrent == 0 || mode.name != "C04"):
+			case next < len(script) && idle >= stageWait && (h.announcedWhileCurrent == 0 || !mode.converge):
 				c.Note("not converged after %d s: %s", idle, why)
 				menu = append(menu, nodeAct{name: script[next].name, run: fire(script[next])})
 			case idle >= horizon:
-				if mode.name != "C04" {
+				if !mode.converge {
 					// convergence is C04's subject
 					menu = append(menu, nodeAct{name: "end"})
 					break
@@ -1303,6 +1444,23 @@ func (h *nodeH) c15Script(grow func()) []nodeEv {
 	}
 }
 
+// liesIn reports whether liar p's answer to q contains its false value.
+func (h *nodeH) liesIn(p *nodePeer, q wire.Message) bool {
+	switch m := q.(type) {
+	case *wire.MsgGetCFHeaders:
+		stop, ok := h.f.byHash[m.StopHash]
+		return ok && int32(m.StartHeight) <= p.lieAt && p.lieAt <= stop.Height
+	case *wire.MsgGetCFCheckpt:
+		stop, ok := h.f.byHash[m.StopHash]
+		if !ok {
+			return false
+		}
+		last := stop.Height - stop.Height%wire.CFCheckptInterval
+		return last > 0 && p.lieAt <= last
+	}
+	return false
+}
+
 // finalChecks applies the clauses that are judged at the end of the script.
 func (h *nodeH) finalChecks() bool {
 	c := h.c
@@ -1317,6 +1475,19 @@ func (h *nodeH) finalChecks() bool {
 			}
 			if cn := h.liveConn(p); cn != nil && cn.ready {
 				return c.Fail("C13", "C13:service-bits-not-disconnected", "%s (%s) advertised services %v and its connection is still open", p.name, p.addr, p.services())
+			}
+		case "false-cfheaders":
+			if h.oracle != "C03" || h.poisoned != "" {
+				continue
+			}
+			for key, who := range h.answered {
+				if who[p.name+":lied"] && who["H"] && !h.cs.IsBanned(p.addr) {
+					return c.Fail("C03", "C03:liar-not-banned", "%s answered %s with its false filter header (false from height %d on) next to the honest remote's answer and is not banned", p.name, key, p.lieAt)
+				}
+			}
+		case "honest":
+			if h.oracle == "C03" && h.poisoned == "" && h.cs.IsBanned(p.addr) {
+				return c.Fail("C03", "C03:honest-peer-banned", "the honest remote %s (%s) is banned", p.name, p.addr)
 			}
 		case "bad-block":
 			if p.servedBadBlock && !h.cs.IsBanned(p.addr) {
@@ -1442,7 +1613,7 @@ func (h *nodeH) reopen() {
 }
 
 func nodeBody(t *testing.T, mode nodeMode, nadv int) func(c *verifeng.Chooser) {
-	f := getNodeFixture()
+	f := getNodeFixture(mode.long)
 	return func(c *verifeng.Chooser) {
 		var env *verifhfs.Env
 		out := verifbubble.Run(t, func() {
@@ -1478,6 +1649,12 @@ func runNode(t *testing.T, harness, modeName string) {
 	cfgs := []nodeCfg{{2, 1}}
 	if tier == "thorough" {
 		cfgs = []nodeCfg{{3, 1}, {2, 2}}
+	}
+	if modeName == "C03L" || modeName == "C04L" {
+		cfgs = []nodeCfg{{1, 1}}
+		if tier == "thorough" {
+			cfgs = []nodeCfg{{2, 1}, {1, 2}}
+		}
 	}
 	if modeName == "C17" {
 		// Stop is one of the deviations
@@ -1524,6 +1701,8 @@ func TestVFXC04(t *testing.T)  { runNode(t, "C04-node", "C04") }
 func TestVFXC13N(t *testing.T) { runNode(t, "C13-node", "C13") }
 func TestVFXC17(t *testing.T)  { runNode(t, "C17-node", "C17") }
 func TestVFXC15N(t *testing.T) { runNode(t, "C15-node", "C15") }
+func TestVFXC03L(t *testing.T) { runNode(t, "C03-long-chain", "C03L") }
+func TestVFXC04L(t *testing.T) { runNode(t, "C04-long-chain", "C04L") }
 
 var _ = banman.NoCompactFilters
 var _ = errors.New
